@@ -313,6 +313,17 @@ func SetupNewUser(user *ptttype.UserecRaw) error {
 	defer func() { _ = cmbbs.PasswdUnlock() }()
 	verifPoint("reg.locked", user, 0)
 
+	// The existence check above ran outside the semaphore: another registration of the
+	// same user-id may have completed since. Look the id up again now that we hold the lock.
+	uid, err = cache.DoSearchUserRaw(&user.UserID, nil)
+	if err != nil {
+		log.Errorf("SetupNewUser: unable to DoSearchUserRaw userID (locked): userID: %v e: %v", user.UserID, err)
+		return err
+	}
+	if uid != 0 {
+		return ptttype.ErrUserIDAlreadyExists
+	}
+
 	uid, err = cache.DoSearchUserRaw(&ptttype.EMPTY_USER_ID, nil)
 	if err != nil {
 		log.Errorf("SetupNewUser: unable to DoSearchUserRaw empty-user-id 2: e: %v", err)
